@@ -1,5 +1,6 @@
 import ErbiumModel.Lemmas.DnsTree
 import ErbiumModel.Lemmas.DnsMessage
+import ErbiumModel.Lemmas.DnsTotal
 /-! # C14 — DNS messages survive decode/encode unchanged, including name compression -/
 namespace Erbium.Props.C14
 open Erbium Erbium.DnsWire
@@ -69,6 +70,21 @@ theorem C14_message_roundtrip (p : Pkt) (hw : WfPkt p) (size : Nat) (wire : Byte
     serialiseWithSize p size = some wire ∧ parse wire = .ok p :=
   ⟨complete_serialise p size wire hs hw.rcode hc, message_roundtrip p hw size wire hc hsz⟩
 
+/-- **C14 (the encoder is total).** For every message that meets exactly what the encoder asserts
+    (`PktEnc`: labels of 1..63 octets, character strings below 256 octets, SOA/OPT data only under their own
+    type, opaque data below 65536 octets, rcode below 4096) and every limit ≥ 512, `serialise_with_size`
+    returns: no assertion, `unwrap`, `unreachable!` or overflow check below it can fire — for messages of
+    any size, also when the octets written pass 64 KiB before truncation (there the recorded offsets
+    saturate, `Generated.Dns.offsetSaturates`, so they are never zero and never wrap into pointer range). -/
+theorem C14_encode_total (p : Pkt) (hp : PktEnc p) (size : Nat) (hs : 512 ≤ size) :
+    ∃ wire, serialiseWithSize p size = some wire :=
+  serialise_total (by decide) p hp size hs
+
+/-- an offset a pointer cannot express is never recorded as one it can (beyond 16 KiB and beyond 64 KiB alike) -/
+theorem C14_unreachable_offsets_stay_unreachable (off : Nat) (h : Generated.Dns.pointerLimit ≤ off) :
+    Generated.Dns.pointerLimit ≤ storeOff off :=
+  storeOff_ge (by decide) h (by decide)
+
 /-! Non-vacuity: `www.example.com` after `example.com` is written as `www` + pointer and decodes back. -/
 def ex1 : Name := [[101, 120], [99]]
 def ex2 : Name := [[119], [101, 120], [99]]
@@ -94,5 +110,21 @@ def exPkt : Pkt :=
 example : (match serialiseWithSize exPkt 512 with
     | some w => (match parse w with | .ok q => decide (q = exPkt) | .error _ => false)
     | none => false) = true := by decide +kernel
+
+/-- the example message meets the encoder's preconditions -/
+example : PktEnc exPkt := by
+  refine ⟨by decide, ?_, ?_, ?_, ?_⟩
+  · intro l hl; simp [exPkt, ex1] at hl; rcases hl with rfl | rfl <;> simp [WfLabel]
+  · intro rr hrr; simp [exPkt] at hrr; subst hrr
+    refine ⟨?_, ?_⟩
+    · intro l hl; simp [ex1] at hl; rcases hl with rfl | rfl <;> simp [WfLabel]
+    · show WfName ex2
+      intro l hl; simp [ex2] at hl; rcases hl with rfl | rfl | rfl <;> simp [WfLabel]
+  · intro rr hrr; simp [exPkt] at hrr
+  · intro rr hrr; simp [exPkt] at hrr; subst hrr
+    refine ⟨?_, ?_⟩
+    · intro l hl; simp [ex2] at hl; rcases hl with rfl | rfl | rfl <;> simp [WfLabel]
+    · show (1 : Nat) ≠ T_OPT ∧ (1 : Nat) ≠ T_SOA ∧ [192, 0, 2, 1].length < 65536
+      decide
 
 end Erbium.Props.C14
